@@ -85,6 +85,17 @@ ScheduleComplete(e) ==
 (***************************************************************************)
 NonAux(C) == SelectSeq(C, LAMBDA x : ~IsAux(x))
 SeqOfSet(S) == CHOOSE q \in SetToSeqs(S) : TRUE
+\* demand lines: per service, the parsed demand is the step-wise sum of the declared lines (one logged unit of slack
+\* per line); a service without declared lines has no demand
+DemandsKept(e) ==
+  \A sv \in NeedSrv :
+    LET want == DeclaredNeed(e.input_needs, sv)
+        I == {i \in 1..Len(e.out.needs) : e.out.needs[i].srv = sv}
+        nl == Cardinality({i \in 1..Len(e.input_needs) : e.input_needs[i].srv = sv})
+    IN IF want = <<>> THEN I = {}
+       ELSE /\ Cardinality(I) = 1
+            /\ LET got == e.out.needs[CHOOSE i \in I : TRUE].v IN
+               Len(got) = Len(want) /\ \A t \in 1..Len(want) : Abs(got[t] - want[t]) <= nl
 C05Clauses(e) ==
   LET In0 == FromObs(e.input, e.q)
       declared == NonAux(In0)
@@ -97,6 +108,7 @@ C05Clauses(e) ==
      \cup (IF BagClose(added, compl, e.q, 1) THEN {} ELSE {"completion_not_max0_use_minus_declared"})
      \cup (IF e.out.renorm.ok /\ BagClose(e.out.renorm.data, FromObs(e.out.data, e.q), e.q, 1) THEN {} ELSE {"normalize_not_idempotent"})
      \cup (IF \A i \in 1..(Len(e.out.data) - 1) : e.out.data[i].id <= e.out.data[i + 1].id THEN {} ELSE {"not_sorted_by_id"})
+     \cup (IF "input_needs" \in DOMAIN e /\ ~DemandsKept(e) THEN {"declared_demand_lost_or_altered"} ELSE {})
 
 (***************************************************************************)
 (* C06 on (declared input, parsed result), per system with auxiliaries     *)
